@@ -11,6 +11,8 @@ structure Ev where
   ms     : Nat
   lo     : Nat
   hi     : Nat
+  /-- the logical part as returned to the client (the raw value `hi` shifted by the suffix bits, plus the suffix) -/
+  ret    : Nat := hi
   deriving Repr, DecidableEq
 
 /-- every value of `a` is smaller than every value of `b` (lexicographic on (ms, logical)) -/
@@ -19,7 +21,7 @@ def valuesLt (a b : Ev) : Prop := a.ms < b.ms ∨ (a.ms = b.ms ∧ a.hi ≤ b.lo
 instance (a b : Ev) : Decidable (valuesLt a b) := by unfold valuesLt; infer_instance
 
 def wellFormed (logicalBits : Nat) (e : Ev) : Prop :=
-  e.lo < e.hi ∧ e.hi < 2 ^ logicalBits ∧ e.start ≤ e.finish
+  e.lo < e.hi ∧ e.ret < 2 ^ logicalBits ∧ e.start ≤ e.finish
 
 instance (k : Nat) (e : Ev) : Decidable (wellFormed k e) := by unfold wellFormed; infer_instance
 
